@@ -78,6 +78,18 @@ func (r *Runner) RunGoit(args ...string) ExecResult {
 }
 
 func (r *Runner) RunArgv(argv []string, extraEnv []string) ExecResult {
+	// "@ROOT@" in an argument stands for the absolute path of the working tree of this run (absolute spellings of
+	// paths stay reproducible when a trace is re-executed in another scratch directory)
+	if len(argv) > 1 {
+		sub := make([]string, len(argv))
+		copy(sub, argv)
+		for i := 1; i < len(sub); i++ {
+			if strings.Contains(sub[i], "@ROOT@") && !strings.HasPrefix(sub[i], "inject=") {
+				sub[i] = strings.ReplaceAll(sub[i], "@ROOT@", r.Root)
+			}
+		}
+		argv = sub
+	}
 	if r.Wrap != nil {
 		argv = r.Wrap(argv)
 	}
